@@ -241,7 +241,7 @@ class Model:
             from .inventory import FUNCTIONS, MODULE_NAMES
         except ImportError:
             return
-        from .inline import MAX_ROUNDS, canonical_spellings, collapse_return_temps, collapse_test_temps, forward_substitute_new_temps, dissolve_attribute_records, dissolve_parameter_objects, fold_after_inlining, propagate_local_aliases, desugar_ifexp, desugar_match, desugar_exitstacks, desugar_partials_and_extends, desugar_return_all_any, dissolve_new_cm_classes, drop_absorbed_helpers, scalarise_local_objects, desugar_module_name_tables, unify_duplicate_unpackings, erase_namedtuple_interfaces, erase_new_namedtuples, inline_new_helpers, scalarise_local_dicts, unroll_new_tables, propagate_new_constants
+        from .inline import MAX_ROUNDS, canonical_spellings, collapse_return_temps, collapse_test_temps, forward_substitute_new_temps, dissolve_attribute_records, dissolve_parameter_objects, fold_after_inlining, propagate_local_aliases, desugar_ifexp, desugar_match, desugar_exitstacks, desugar_partials_and_extends, desugar_return_all_any, dissolve_new_cm_classes, drop_absorbed_helpers, scalarise_local_objects, desugar_module_name_tables, unify_duplicate_unpackings, erase_namedtuple_interfaces, desugar_walrus, erase_new_namedtuples, inline_new_helpers, scalarise_local_dicts, unroll_new_tables, propagate_new_constants
 
         # functions whose source differs from the pinned tree (digest of ast.dump): only those are rewritten by the
         # statement-level normalisations that would otherwise also touch pinned code
@@ -292,6 +292,9 @@ class Model:
         from .alpha import normalise_call_conventions
 
         if normalise_call_conventions(self, CALL_CONVENTIONS):
+            self._reindex()
+        self.walrus_desugared = desugar_walrus(self, self.changed_functions) if self.changed_functions else []
+        if self.walrus_desugared:
             self._reindex()
         if canonical_spellings(self):
             self._reindex()
